@@ -285,6 +285,161 @@ def tls13_client(sock, deviation, client_chain=b"", client_d=0, other_d=12345):
     return {"completed": False, "creq": creq, "after": str(r)[:60]}          # in TLS 1.3 the server Finished precedes client authentication: nothing to observe here
 
 
+# ---------------------------------------------------------------------------------------------------------------------
+# The other role: a server that is not the library, for the library CLIENT's authentication of its peer (server-auth handshakes).
+def cbc_server(sock, proto, deviation, chain_der, sign_d, enc_d=0, other_d=54321):
+    """TLCP (proto 257) or TLS 1.2 (771) server.  Deviations: ske_wrong_key, ske_stale_random, no_ske, finished_wrong, finished_plain, no_ccs"""
+    tlcp = proto == 257
+    ver = b"\x01\x01" if tlcp else b"\x03\x03"
+    p = Peer(sock, ver)
+    r = p.recv_record()
+    if r is None or r[0] != 22: return {"completed": False, "why": "no ClientHello"}
+    ch = r[1]; p.transcript += ch
+    crandom = ch[6:38]
+    srandom = bytes((i * 13 + 7) & 255 for i in range(32))
+    ext = lambda t, d: u16(t) + u16(len(d)) + d
+    # the library's TLS 1.2 client insists on its ec_point_formats / supported_groups / signature_algorithms extensions being answered
+    sx = b"" if tlcp else ext(11, b"\x01\x00") + ext(10, u16(2) + u16(41)) + ext(13, u16(2) + u16(0x0708))
+    p.send_hs(2, ver + srandom + b"\x00" + (b"\xe0\x13" if tlcp else b"\xe0\x11") + b"\x00" + (u16(len(sx)) + sx if sx else b""))
+    certs = split_certs(chain_der)
+    lst = b"".join(u24(len(c)) + c for c in certs)
+    p.send_hs(11, u24(len(lst)) + lst)
+    d = other_d if deviation == "ske_wrong_key" else sign_d
+    P = sm2ref.mul(d, sm2ref.G)
+    cr = bytes(32) if deviation == "ske_stale_random" else crandom
+    if tlcp:
+        tbs = cr + srandom + u24(len(certs[1])) + certs[1]
+    else:
+        se = 0x6161616161616161616161616161616161616161616161616161616161616161 % sm2ref.n
+        sP = sm2ref.mul(se, sm2ref.G)
+        params = b"\x03" + u16(41) + bytes([65]) + b"\x04" + sm2ref.i2b(sP[0]) + sm2ref.i2b(sP[1])
+        tbs = cr + srandom + params
+    r_, s_ = sm2ref.sign(d, P, tbs, 0x4444444444444444444444444444444444444444)
+    sig = derw.seq(derw.dint(r_), derw.dint(s_))
+    if deviation != "no_ske":
+        p.send_hs(12, (u16(len(sig)) + sig) if tlcp else (params + u16(0x0708) + u16(len(sig)) + sig))
+    p.send_hs(14, b"")
+    # client: ClientKeyExchange, CCS, Finished
+    r = p.recv_record()
+    if r is None: return {"completed": False, "why": "client hung up after the server flight"}
+    if r[0] == 21: return {"completed": False, "alert": list(r[1])}
+    cke = r[1]; p.transcript += cke
+    try:
+        if tlcp:
+            ct = cke[6:]
+            nodes = [n for n, _, _ in mutlib.preorder(mutlib.parse(ct))]
+            x, y, h3, c2 = [n.val for n in nodes[1:5]]
+            pms = sm2ref.decrypt(enc_d, (int.from_bytes(x, "big"), int.from_bytes(y, "big")), c2, h3)
+        else:
+            pt = cke[5:]
+            pms = sm2ref.i2b(sm2ref.mul(se, (int.from_bytes(pt[1:33], "big"), int.from_bytes(pt[33:65], "big")))[0])
+    except Exception as ex:
+        return {"completed": False, "why": "cannot read ClientKeyExchange: %r" % ex}
+    if pms is None: return {"completed": False, "why": "pre-master does not decrypt"}
+    master = prf(pms, b"master secret", crandom + srandom, 48)
+    kb = prf(master, b"key expansion", srandom + crandom, 96)
+    # this side writes with the server keys and reads with the client keys
+    p.keys = {"cmac": kb[32:64], "smac": kb[0:32], "ckey": kb[80:96], "skey": kb[64:80]}
+    r = p.recv_record()
+    if r is None or r[0] != 20: return {"completed": False, "why": "no ChangeCipherSpec from the client: %r" % (r,)}
+    p.enc_in = True
+    r = p.recv_record()
+    if r is None or r[1] is None: return {"completed": False, "why": "client Finished unreadable"}
+    exp = prf(master, b"client finished", sm3(p.transcript), 12)
+    if r[1][4:16] != exp: return {"completed": False, "why": "client Finished wrong"}
+    p.transcript += r[1]
+    if deviation != "no_ccs":
+        p.send_record(20, b"\x01")
+    p.enc_out = deviation != "finished_plain"
+    vd = prf(master, b"server finished", sm3(p.transcript), 12)
+    if deviation == "finished_wrong": vd = bytes([vd[0] ^ 1]) + vd[1:]
+    p.send_hs(20, vd)
+    p.enc_out = True
+    p.send_record(23, b"ping")
+    return {"completed": True}
+
+
+def tls13_server(sock, deviation, chain_der, sign_d, other_d=54321):
+    """TLS 1.3 server.  Deviations: no_cv (Certificate, then Finished), no_cert (neither), cv_wrong_key, cv_stale_transcript, cv_client_context, finished_wrong"""
+    p = Peer13(sock)
+    r = p.recv_record()
+    if r is None or r[0] != 22: return {"completed": False, "why": "no ClientHello"}
+    ch = r[1]; p.transcript += ch
+    b = ch[4:]; off = 2 + 32; sid = b[off + 1:off + 1 + b[off]]; off += 1 + b[off]
+    off += 2 + int.from_bytes(b[off:off + 2], "big"); off += 1 + b[off]
+    el = int.from_bytes(b[off:off + 2], "big"); ex = b[off + 2:off + 2 + el]; cP = None; o = 0
+    while o < len(ex):
+        t = int.from_bytes(ex[o:o + 2], "big"); l = int.from_bytes(ex[o + 2:o + 4], "big"); dd = ex[o + 4:o + 4 + l]; o += 4 + l
+        if t == 51: cP = (int.from_bytes(dd[7:39], "big"), int.from_bytes(dd[39:71], "big"))
+    if cP is None: return {"completed": False, "why": "no key_share"}
+    se = 0x7171717171717171717171717171717171717171717171717171717171717171 % sm2ref.n
+    sP = sm2ref.mul(se, sm2ref.G)
+    ext = lambda t, d: u16(t) + u16(len(d)) + d
+    exts = ext(43, b"\x03\x04") + ext(51, u16(41) + u16(65) + b"\x04" + sm2ref.i2b(sP[0]) + sm2ref.i2b(sP[1]))
+    srandom = bytes((i * 17 + 9) & 255 for i in range(32))
+    p.send_hs(2, b"\x03\x03" + srandom + bytes([len(sid)]) + sid + b"\x00\xc6" + b"\x00" + u16(len(exts)) + exts, enc=False)
+    shared = sm2ref.i2b(sm2ref.mul(se, cP)[0])
+    zeros = bytes(32)
+    early = K.hkdf_extract(T, "sm3", zeros, zeros)
+    hsec = K.hkdf_extract(T, "sm3", derive(early, b"derived", b""), shared)
+    chs, shs = derive(hsec, b"c hs traffic", p.transcript), derive(hsec, b"s hs traffic", p.transcript)
+    master = K.hkdf_extract(T, "sm3", derive(hsec, b"derived", b""), zeros)
+    p.set_write(shs); p.set_read(chs)
+    p.send_hs(8, u16(0))
+    certs = split_certs(chain_der)
+    if deviation != "no_cert":
+        lst = b"".join(u24(len(c)) + c + u16(0) for c in certs)
+        p.send_hs(11, b"\x00" + u24(len(lst)) + lst)
+    if deviation not in ("no_cv", "no_cert"):
+        d = other_d if deviation == "cv_wrong_key" else sign_d
+        P = sm2ref.mul(d, sm2ref.G)
+        tr = p.transcript[:-7] if deviation == "cv_stale_transcript" else p.transcript
+        ctx = b"TLS 1.3, client CertificateVerify\x00" if deviation == "cv_client_context" else b"TLS 1.3, server CertificateVerify\x00"
+        r_, s_ = sm2ref.sign(d, P, b"\x20" * 64 + ctx + sm3(tr), 0x4444444444444444444444444444444444444444, TLS13_ID)
+        sig = derw.seq(derw.dint(r_), derw.dint(s_))
+        p.send_hs(15, u16(0x0708) + u16(len(sig)) + sig)
+    fk = xlabel(shs, b"finished", b"", 32)
+    vd = K.hmac(T, "sm3", fk, sm3(p.transcript))
+    if deviation == "finished_wrong": vd = bytes([vd[0] ^ 1]) + vd[1:]
+    p.send_hs(20, vd)
+    cap, sap = derive(master, b"c ap traffic", p.transcript), derive(master, b"s ap traffic", p.transcript)
+    r = p.recv_record()
+    if r is None or r[1] is None: return {"completed": False, "why": "no client Finished"}
+    if r[0] == 21: return {"completed": False, "alert": list(r[1])}
+    fkc = xlabel(chs, b"finished", b"", 32)
+    ok = r[1][:1] == b"\x14" and r[1][4:36] == K.hmac(T, "sm3", fkc, sm3(p.transcript))
+    p.set_write(sap); p.set_read(cap)
+    p.send_enc(23, b"ping")
+    return {"completed": ok}
+
+
+def run_server(creddir, exe, proto, scred, ctrust, deviation, timeout=60):
+    """spawn the library CLIENT on one end of a socketpair, play the independent server with credential set `scred` on the other"""
+    a, b = socket.socketpair()
+    import tempfile
+    tf = tempfile.NamedTemporaryFile(prefix="rogue_", suffix=".ndjson", dir=os.path.dirname(creddir), delete=False); tf.close()
+    env = dict(os.environ, ASAN_OPTIONS="detect_leaks=0:abort_on_error=0:exitcode=99", UBSAN_OPTIONS="halt_on_error=1:exitcode=98")
+    pr = subprocess.Popen([exe, creddir, tf.name, str(b.fileno()), str(proto), "client", "-", ctrust], pass_fds=(b.fileno(),), stdout=subprocess.DEVNULL, stderr=subprocess.PIPE, env=env)
+    b.close(); a.settimeout(timeout)
+    chain = open(os.path.join(creddir, scred, "chain.der"), "rb").read()
+    rd = lambda f: int(open(os.path.join(creddir, scred, f)).read().strip(), 16) if os.path.exists(os.path.join(creddir, scred, f)) else 0
+    try:
+        view = tls13_server(a, deviation, chain, rd("sign.key")) if proto == 772 else cbc_server(a, proto, deviation, chain, rd("sign.key"), rd("enc.key"))
+    except (socket.timeout, ConnectionError, OSError) as ex:
+        view = {"completed": False, "why": "socket: %r" % ex}
+    try: a.close()
+    except OSError: pass
+    try: _, err = pr.communicate(timeout=timeout)
+    except subprocess.TimeoutExpired:
+        pr.kill(); _, err = pr.communicate()
+    evs = [json.loads(l) for l in open(tf.name) if l.strip()]
+    os.unlink(tf.name)
+    e = err.decode(errors="replace"); san = None
+    if "Sanitizer" in e or "runtime error" in e or pr.returncode not in (0,):
+        san = e[-600:] if ("Sanitizer" in e or "runtime error" in e) else ("exit code %s" % pr.returncode)
+    return view, evs, san
+
+
 def run(creddir, exe, proto, scred, strust, deviation, ccred="cli_d2", timeout=60):
     """spawn the library server on one end of a socketpair, play the rogue client on the other; returns (client view, server events)"""
     a, b = socket.socketpair()
@@ -321,5 +476,9 @@ if __name__ == "__main__":
     creddir, exe = sys.argv[1], sys.argv[2]
     for dev in sys.argv[3:]:
         proto = int(os.environ.get("PROTO", "257"))
+        if os.environ.get("ROLE") == "server":
+            v, evs, san = run_server(creddir, exe, proto, "tlcp_d2" if proto == 257 else "srv_d2", "trust_root", dev)
+            print(dev, v, [(e["e"], e.get("rc"), e.get("peer_certs_len")) for e in evs], san)
+            continue
         v, evs, san = run(creddir, exe, proto, "tlcp_d2" if proto == 257 else "srv_d2", "trust_root", dev)
         print(dev, v, [(e["e"], e.get("rc"), e.get("peer_certs_len")) for e in evs], san)
